@@ -652,3 +652,235 @@ def unit_xmlnorm(args):
     res["wall"] = time.time() - t0
     res["models_used"] = sorted(MD.USED)
     return res
+
+
+# ---------------------------------------------------------------- C17: XML serializer output re-tokenizes / re-scopes to the same namespaced tree
+def _sym_letter(name, cons):
+    v = z3.BitVec(name, 32)
+    MD.CHAR_CLASS[name] = 1
+    cons.append(z3.And(z3.UGE(v, 0x61), z3.ULE(v, 0x7A)))
+    return v
+
+
+def unit_c17(args):
+    """shape: list of events  ('start', elem, [attrs]) | ('end', elem) | ('text', k)
+       elem/attr names are dicts {p: None|'p0'|..., u: None|'u0'|..., l: 'a'}: p*/u* name symbolic one-letter atoms."""
+    from mirsym.interp import Machine, PathEnd, Panic, Ptr, Struct, Enum
+    from mirsym.models import Atom, Iter, some, none, Tup
+    t0 = time.time()
+    res = {"unit": "C17 %s" % args["name"], "paths": 0, "queries": 0, "obligations": 0, "violations": [], "panics": [], "errors": [], "livelock": 0}
+    try:
+        cons = []
+        syms = {}
+
+        def sym(n):
+            if n not in syms:
+                syms[n] = _sym_letter("s_" + n, cons)
+            return syms[n]
+
+        def atom(x):
+            return Atom([sym(x)]) if x else Atom([])
+
+        def qn(d):
+            return Struct("QualName", [some(atom(d["p"])) if d["p"] else none(), atom(d["u"]), Atom([ord(c) for c in d["l"]])])
+
+        # well-formedness of the input tree: names in scope that share a prefix share the URI (a parsed tree always does)
+        for (a_, b_) in args.get("same_prefix_same_uri", []):
+            cons.append(z3.Implies(sym(a_[0]) == sym(b_[0]), sym(a_[1]) == sym(b_[1])))
+        for (a_, b_) in args.get("distinct", []):
+            cons.append(sym(a_) != sym(b_))
+        texts = {}
+        work = [[]]
+        while work:
+            d = work.pop()
+            m = Machine(_PROG, d)
+            for c in cons:
+                m.assume(c)
+            try:
+                ser = m.call("XmlSerializer::new", [Struct("Wr", [])])
+                sp = Ptr([ser], 0)
+                nt = 0
+                for ei, ev in enumerate(args["shape"]):
+                    if ev[0] == "start":
+                        attrs = [Tup([Ptr([qn(a)], 0), Ptr([Str_(texts, cons, "av%d_%d" % (ei, i), a.get("vk", 0), a.get("v", ""))], 0)]) for i, a in enumerate(ev[2])]
+                        m.call("<XmlSerializer as Serializer>::start_elem", [sp, qn(ev[1]), Iter(attrs, "attrs")])
+                    elif ev[0] == "end":
+                        m.call("<XmlSerializer as Serializer>::end_elem", [sp, qn(ev[1])])
+                    elif ev[0] == "text":
+                        m.call("<XmlSerializer as Serializer>::write_text", [sp, Ptr([Str_(texts, cons, "t%d" % nt, ev[1], "")], 0)])
+                        nt += 1
+                out = list(m.notes.get("out", []))
+                outcome = "ok"
+            except Panic as e:
+                outcome = "panic: " + e.msg
+            except PathEnd:
+                work.extend(m.pending)
+                continue
+            work.extend(m.pending)
+            res["paths"] += 1
+            res["queries"] += m.nqueries
+            if outcome != "ok":
+                res["panics"].append({"what": outcome, "chars": None, "cfg": None, "lens": None, "state": "serializer"})
+                continue
+            # the output, as characters, through the interpreted XML tokenizer under this path's condition
+            chars = [z3.ZeroExt(24, b) if is_sym(b) else b for b in out]
+            base = {"exact_errors": False, "discard_bom": False, "profile": False, "last_start_tag": None, "on_start": "Continue", "foreign": False,
+                    "simd": True, "dialect": "xml", "state": "Data"}
+            st = {}
+            T = tok.explore(_PROG, mk_cfg(base, constraints=cons + m.pc), chars, stats=st)
+            res["queries"] += st.get("queries", 0)
+            for tp in T:
+                res["obligations"] += 1
+                if tp.outcome != "ok":
+                    res["panics"].append({"what": "tokenizer on serializer output: " + tp.outcome, "chars": None, "cfg": None, "lens": None, "state": "retokenize"})
+                    continue
+                bad = compare_c17(args["shape"], syms, texts, tp.tokens)
+                if bad is True:
+                    continue
+                rr, mo = model_of(tp.pc, [bad] if bad is not False and not isinstance(bad, str) else [])
+                res["queries"] += 1
+                if isinstance(bad, str) or rr == z3.sat:
+                    mo = mo or model_of(tp.pc)[1]
+                    res["violations"].append({"what": "serializer output does not re-scan to the same namespaced tree: %s" % (bad if isinstance(bad, str) else "names/values differ"),
+                                              "label": "xmlser", "state": args["name"], "chars": concrete_chars(chars, mo) if mo else None,
+                                              "syms": {k: (mo.eval(v, model_completion=True).as_long() if mo else None) for k, v in syms.items()},
+                                              "texts": {k: concrete_chars(v, mo) if mo else None for k, v in texts.items()}, "shape": args["name"]})
+                elif rr != z3.unsat:
+                    res["errors"].append("solver unknown")
+    except Unsupported as e:
+        res["errors"].append("unsupported: " + str(e)[:300])
+    except Exception:
+        res["errors"].append("exception: " + traceback.format_exc()[-900:])
+    res["wall"] = time.time() - t0
+    res["models_used"] = sorted(MD.USED)
+    return res
+
+
+def Str_(texts, cons, key, k, lit):
+    """a &str made of k symbolic ASCII characters (recorded under `key`) followed by the literal"""
+    from mirsym.interp import Str
+    if key not in texts:
+        cs, cn = tok.sym_chars(k, [1] * k, prefix=key + "_")
+        # NUL never occurs in a tree produced by the parser (input preprocessing and '&#0;' both give U+FFFD);
+        # CR does (through '&#13;'), so it stays in
+        for c in cs:
+            cn += [c != 0]
+        cons.extend(cn)
+        texts[key] = cs + [ord(x) for x in lit]
+    return Str(texts[key])
+
+
+UNBOUND = 0x7F
+
+
+def compare_c17(shape, syms, texts, tokens):
+    """lexically resolve the re-tokenized output and compare with the input tree.
+    -> True (equal) | z3 Bool (condition under which they DIFFER) | str (structural mismatch)"""
+    toks = [t for t, _ in tok.normalize(tokens, drop_errors=True, keep_lines=False)] if False else [t for t, _ in tokens if t[0] != "Error"]
+    # merge adjacent character tokens
+    merged = []
+    for t in toks:
+        if t[0] == "Chars" and merged and merged[-1][0] == "Chars":
+            merged[-1] = ("Chars", merged[-1][1] + t[1])
+        else:
+            merged.append(t)
+    toks = [t for t in merged if t[0] != "EOF"]
+    events = list(shape)
+    if len(toks) != len(events):
+        return "token count %d vs %d events: %s" % (len(toks), len(events), tok.show_obs(toks)[:6])
+    diffs = []
+    scopes = [[]]          # stack of lists of (prefix char or None, uri char or 0)
+    nt = 0
+
+    def resolve(p):
+        """URI bound to prefix p (a char term or None) as a z3 term: innermost declaration first"""
+        e = z3.BitVecVal(0 if p is None else UNBOUND, 32)
+        for sc in scopes:                   # outermost first, so that inner declarations wrap outer ones
+            for (dp, du) in sc:
+                if (dp is None) != (p is None):
+                    continue
+                cond = True if p is None else (dp == p)
+                e = du if cond is True else z3.If(cond, du, e)
+        return e
+
+    for ei, (ev, t) in enumerate(zip(events, toks)):
+        if ev[0] == "text":
+            if t[0] != "Chars":
+                return "expected character data, got %s" % (t[0],)
+            want = texts["t%d" % nt]
+            nt += 1
+            if len(t[1]) != len(want):
+                return "text length %d vs %d" % (len(t[1]), len(want))
+            diffs += [a != b for a, b in zip(t[1], want) if not (isinstance(a, int) and isinstance(b, int) and a == b)]
+            continue
+        if t[0] != "XTag":
+            return "expected a tag, got %s" % (t[0],)
+        kind, name, attrs = t[1], t[2], t[3]
+        el = ev[1]
+        if ev[0] == "start":
+            if kind != "StartTag":
+                return "expected start tag, got %s" % kind
+            decl = []
+            plain = []
+            for (an, av) in attrs:
+                apre, aloc = an
+                if apre is not None and len(apre) == 5 and all(isinstance(x, int) for x in apre) and "".join(map(chr, apre)) == "xmlns":
+                    if len(aloc) != 1 or len(av) > 1:
+                        return "unexpected xmlns declaration shape"
+                    decl.append((aloc[0], av[0] if av else z3.BitVecVal(0, 32)))
+                elif apre is None and len(aloc) == 5 and all(isinstance(x, int) for x in aloc) and "".join(map(chr, aloc)) == "xmlns":
+                    decl.append((None, av[0] if av else z3.BitVecVal(0, 32)))
+                else:
+                    plain.append((an, av))
+            scopes.append(decl)
+            want_attrs = ev[2]
+            if len(plain) != len(want_attrs):
+                return "attribute count %d vs %d" % (len(plain), len(want_attrs))
+            for ai, ((an, av), wa) in enumerate(zip(plain, want_attrs)):
+                d = name_diff(an, wa, syms, resolve, is_attr=True)
+                if isinstance(d, str):
+                    return d
+                diffs += d
+                wv = texts["av%d_%d" % (ei, ai)]
+                if len(av) != len(wv):
+                    return "attribute value length %d vs %d" % (len(av), len(wv))
+                diffs += [a != b for a, b in zip(av, wv) if not (isinstance(a, int) and isinstance(b, int) and a == b)]
+        else:
+            if kind != "EndTag":
+                return "expected end tag, got %s" % kind
+        d = name_diff(name, el, syms, resolve, is_attr=False)
+        if isinstance(d, str):
+            return d
+        diffs += d
+        if ev[0] == "end":
+            scopes.pop()
+    diffs = [x for x in diffs if x is not False]
+    if not diffs:
+        return True
+    if any(x is True for x in diffs):
+        return "names differ concretely"
+    return z3.Or(diffs) if len(diffs) > 1 else diffs[0]
+
+
+def name_diff(got, want, syms, resolve, is_attr):
+    """got = (prefix chars or None, local chars); want = {p,u,l}.  -> list of 'differs' conditions or str"""
+    gpre, gloc = got
+    wl = [ord(c) for c in want["l"]]
+    if len(gloc) != len(wl) or any(isinstance(a, int) and a != b for a, b in zip(gloc, wl)):
+        return "local name differs"
+    out = [a != b for a, b in zip(gloc, wl) if not isinstance(a, int)]
+    if (gpre is None) != (want["p"] is None):
+        return "prefix presence differs for %s" % want["l"]
+    p = None
+    if gpre is not None:
+        if len(gpre) != 1:
+            return "prefix length"
+        p = gpre[0]
+        out.append(p != syms[want["p"]])
+    wu = syms[want["u"]] if want["u"] else z3.BitVecVal(0, 32)
+    if is_attr and gpre is None:
+        uri = z3.BitVecVal(0, 32)                 # unprefixed attributes are in no namespace
+    else:
+        uri = resolve(p)
+    out.append(uri != wu)
+    return out
